@@ -6,6 +6,7 @@ from vmon.refs import txser as R
 from vmon.gen import txgen as G
 
 PROPERTY = "C20"
+PRELOAD_NETWORK_ORDERS = [["btc", "xtn", "ltc", "bch", "grs", "doge", "dash", "btg"], ["btg", "grs", "bch", "doge", "ltc", "xtn", "btc"]]
 LEVEL = "exploration"
 TECHNIQUE = "two-sided oracle at Tx.check(): defect predicate written from the statement; before/after snapshots on returning and raising paths"
 RULE = ("cases: (transaction class, transaction) pairs. Deterministic sweep: every listed defect alone and at every position "
